@@ -1187,7 +1187,21 @@ pub(crate) fn faulty_recovery(
         ..FaultPlan::default()
     };
     let what = format!("{label} -> recovery with device call #{at_call} failing ({write_kind:?}/{fsync_kind:?}/ReadFail{})", if persistent { ", and every write and barrier after it" } else { "" });
-    let outcome = recover(sim, sc, env, image.to_vec(), Some(plan))?;
+    let outcome = match recover(sim, sc, env, image.to_vec(), Some(plan)) {
+        Ok(o) => Some(o),
+        Err((rule, detail)) => {
+            // the failing call index can lie behind the open itself, in the reads with which the
+            // harness takes the contents of the opened store: a read that fails there and is
+            // reported as an I/O error is the fault being reported, not a violation
+            let read_faults = env.disk.as_ref().map(|d| d.stats().faults_fired.get("ReadFail").copied().unwrap_or(0)).unwrap_or(0);
+            if rule == "recovered-read-error" && read_faults > 0 && detail.contains("IoError") {
+                report.count("faulty_recovery_fault_hit_a_later_read", 1);
+                None
+            } else {
+                return Err((rule, detail));
+            }
+        }
+    };
     let disk = env.disk.clone().unwrap();
     let fired: u64 = disk.stats().faults_fired.values().sum();
     if fired == 0 {
@@ -1196,7 +1210,8 @@ pub(crate) fn faulty_recovery(
     report.count("faulty_recoveries", 1);
     let now = sim.now_wall();
     match outcome {
-        Ok(rec) => {
+        None => {}
+        Some(Ok(rec)) => {
             report.count("faulty_recoveries_that_opened", 1);
             if let Some(diff) = contents_diff(r1, &rec.contents, sc.store.ttl, now) {
                 return Err((
@@ -1205,7 +1220,7 @@ pub(crate) fn faulty_recovery(
                 ));
             }
         }
-        Err(_) => report.count("faulty_recoveries_refused", 1),
+        Some(Err(_)) => report.count("faulty_recoveries_refused", 1),
     }
     // the device as the failed (or successful) attempt left it; no power loss
     let as_is = disk.cache_image();
